@@ -100,7 +100,9 @@ class Analysis:
 
     def mready(self, mi):
         r = self.d.mready[mi]
-        return TRUE if isinstance(r, Const) else self.g(r) == 1
+        base = TRUE if isinstance(r, Const) else self.g(r) == 1
+        j = self.spec["methods"][mi].get("ready_on_run")
+        return base if j is None else z3.Or(base, self.runM[j])
 
     def pred(self, mi, arg):
         v = self.spec["methods"][mi]["validate"]
